@@ -53,6 +53,7 @@ def check(run):
     _maps(run, classes['RayTransferEmitter'])
     _pipelines(run, prog)
     _own_copy(run, prog, classes['RayTransferEmitter'])
+    _r7_objects(run, prog)
     from ..cachekey import check_caches
     check_caches(run, [m for k, m in prog.modules.items() if k.startswith('cherab.tools.raytransfer') and not k.endswith('#pxd')], 'C10-K', prog=prog)
 
@@ -125,6 +126,141 @@ def _pipelines(run, prog):
                              '%s.%s accumulates into %s but %s does not re-initialise it: a second observation with the same pipeline starts from the '
                              'totals of the first, so the matrix is scaled or shifted by what was observed before' % (ci.name, acc_m, f, init_m))
     run.floor('C10-R5', 5)
+
+
+def _r7_objects(run, prog):
+    """R7: the ready-made objects hand the emitter the grid they bound: shape (n_1, n_2, n_3) and steps (extent_k / n_k) in the same axis
+    order, the inner radius as rmin, and a bounding primitive that lies *inside* the grid by a small fraction of a cell on the far sides
+    (so that every point the integrator samples has indices below the grid shape), never outside it."""
+    run.describe('C10-R7', 'RayTransferCylinder / RayTransferBox: grid shape and steps per axis, rmin, bounding primitive inside the grid')
+    mi = prog.modules.get('cherab.tools.raytransfer.raytransfer')
+    if mi is None:
+        raise AnalysisError('anchored source file vanished: %s' % RTOBJ)
+    from ..inline import flatten, module_lookup
+    spec = {
+        'RayTransferCylinder': dict(emitter='CylindricalRayTransferEmitter', shape=['n_radius', 'n_polar', 'n_height'],
+                                    steps=['(radius_outer - radius_inner) / n_radius', 'period / n_polar', 'height / n_height'],
+                                    kw={'rmin': 'radius_inner'},
+                                    far=[('radius_outer', 0, 'outer radius'), ('height', 2, 'height')], near=[('radius_inner', 0, 'inner radius')]),
+        'RayTransferBox': dict(emitter='CartesianRayTransferEmitter', shape=['nx', 'ny', 'nz'], steps=['xmax / nx', 'ymax / ny', 'zmax / nz'], kw={},
+                               far=[('xmax', 0, 'x extent'), ('ymax', 1, 'y extent'), ('zmax', 2, 'z extent')], near=[]),
+    }
+    for cname, sp in spec.items():
+        ci = prog.classes.get(mi.name + '.' + cname)
+        init = ci.methods.get('__init__') if ci is not None else None
+        if init is None:
+            raise AnalysisError('anchored method vanished: %s.__init__' % cname)
+        try:
+            init = flatten(init, module_lookup(mi, prog=prog))
+        except Exception:
+            pass
+        K = '%s|%s|__init__|' % (mi.name, cname)
+        ev = SymEval()
+        for a in init.args.args[1:]:
+            ev.env[a.arg] = L(a.arg)
+        tup = {}
+        em = None
+        prim_nums = []
+        for st in init.body:
+            if isinstance(st, ast.Assign) and len(st.targets) == 1 and isinstance(st.targets[0], ast.Name):
+                v = st.value
+                if isinstance(v, ast.Tuple):
+                    try:
+                        tup[st.targets[0].id] = [ev.ev(e) for e in v.elts]
+                    except Exception:
+                        pass
+                    continue
+                if isinstance(v, ast.BoolOp):          # step = step or default
+                    continue
+                calls = [c for c in ast.walk(v) if isinstance(c, ast.Call)]
+                if any((dotted(c.func) or '').split('.')[-1] == sp['emitter'] for c in calls):
+                    em = [c for c in calls if (dotted(c.func) or '').split('.')[-1] == sp['emitter']][0]
+                    continue
+                if any((dotted(c.func) or '').split('.')[-1] in ('Cylinder', 'Box', 'Subtract', 'Point3D') for c in calls):
+                    prim_nums.append(v)
+                    continue
+                try:
+                    ev.env[st.targets[0].id] = ev.ev(v)
+                except Exception:
+                    pass
+        run.subject('C10-R7')
+        if em is None or len(em.args) < 2:
+            run.undecided('C10-R7', cname, 'emitter construction not found')
+            continue
+
+        def val(e):
+            if isinstance(e, ast.Name) and e.id in tup:
+                return tup[e.id]
+            if isinstance(e, ast.Tuple):
+                return [ev.ev(x) for x in e.elts]
+            return None
+        shape, steps = val(em.args[0]), val(em.args[1])
+        want_shape = [L(n) for n in sp['shape']]
+        want_steps = [ev.ev(ast.parse(t, mode='eval').body) for t in sp['steps']]
+        if shape is None or steps is None:
+            run.undecided('C10-R7', cname, 'grid shape / steps not resolved')
+            continue
+        if not (len(shape) == 3 and all(a.eq(b) for a, b in zip(shape, want_shape))):
+            run.fail('C10-R7', K + 'shape', RTOBJ, em.lineno, '%s hands the emitter the grid shape %s; documented: (%s)' % (cname, [x.key() for x in shape], ', '.join(sp['shape'])))
+            continue
+        if not (len(steps) == 3 and all(a.eq(b) for a, b in zip(steps, want_steps))):
+            run.fail('C10-R7', K + 'steps', RTOBJ, em.lineno, '%s hands the emitter the grid steps %s; documented: (%s) -- the cell a sample point '
+                     'falls into is found by dividing its coordinate by the step of that axis' % (cname, [x.key() for x in steps], ', '.join(sp['steps'])))
+            continue
+        kw = {k.arg: k.value for k in em.keywords}
+        badkw = [k for k, w in sp['kw'].items() if k not in kw or not ev.ev(kw[k]).eq(L(w))]
+        if badkw:
+            run.fail('C10-R7', K + 'rmin', RTOBJ, em.lineno, '%s does not pass %s = %s to the emitter' % (cname, badkw[0], sp['kw'][badkw[0]]))
+            continue
+        run.ok('C10-R7', cname + ' grid', 'shape (%s), steps (%s)' % (', '.join(sp['shape']), ', '.join(sp['steps'])))
+        # bounding primitive: every far bound is extent - c * step with a small positive constant c, every near bound extent + c * step
+        run.subject('C10-R7')
+        nums = []
+        for v in prim_nums:
+            for c in ast.walk(v):
+                if isinstance(c, ast.Call) and (dotted(c.func) or '').split('.')[-1] in ('Cylinder', 'Point3D'):
+                    for a in c.args:
+                        try:
+                            nums.append(ev.ev(a))
+                        except Exception:
+                            pass
+        verdict = []
+        from fractions import Fraction as _F
+
+        def frac_of_cell(diff, axis):
+            # diff / step of that axis, if it is the same constant at two different rational points
+            leaves = sorted(set(diff.leaves()) | set(want_steps[axis].leaves()))
+            vals = []
+            for seed in (3, 7):
+                sub = {l: C(_F(seed * (k + 2) + k * k + 1, 1 + (k % 3))) for k, l in enumerate(leaves)}
+                try:
+                    d_, s_ = diff.subst(sub), want_steps[axis].subst(sub)
+                    if not (d_.is_const() and s_.is_const()) or s_.const_value() == 0:
+                        return None
+                    vals.append(_F(d_.const_value()) / _F(s_.const_value()))
+                except Exception:
+                    return None
+            return vals[0] if vals[0] == vals[1] else None
+        for ext, axis, what in sp['far']:
+            cs = [frac_of_cell(L(ext) - n, axis) for n in nums if ext in n.leaves()]
+            good = [c for c in cs if c is not None and 0 < c <= _F(1, 100)]
+            exact = [n for n in nums if n.eq(L(ext))]
+            verdict.append((what, bool(good) and not exact, 'far'))
+        for ext, axis, what in sp['near']:
+            cs = [frac_of_cell(n - L(ext), axis) for n in nums if ext in n.leaves()]
+            good = [c for c in cs if c is not None and 0 < c <= _F(1, 100)]
+            verdict.append((what, bool(good), 'near'))
+        if not nums:
+            run.undecided('C10-R7', cname + ' bounding primitive', 'dimensions not resolved')
+        elif all(v[1] for v in verdict):
+            run.ok('C10-R7', cname + ' bounding primitive', 'inside the grid by a fraction of a cell: %s' % [v[0] for v in verdict])
+        else:
+            w = [v for v in verdict if not v[1]][0]
+            run.fail('C10-R7', K + 'bounds:' + w[0].replace(' ', '-'), RTOBJ, init.lineno,
+                     "%s: the %s of the bounding primitive is not pulled %s by a small fraction of a cell: a ray end point on the "
+                     "boundary then maps to an index equal to the grid size (or below zero) and the integrator reads outside the voxel map"
+                     % (cname, w[0], 'inside the grid' if w[2] == 'far' else 'away from the inner wall'))
+    run.floor('C10-R7', 4)
 
 
 def _spec_stores(fn, sp):
